@@ -34,6 +34,10 @@ func (s *fileDisk) Finalize() {
 
 		// save size
 		s.finalSize = lastPart.offset + lastPart.size
+
+		// the last part may end with a seek past the written bytes:
+		// make the file as long as the size we report.
+		s.f.Truncate(int64(s.finalSize)) //nolint:errcheck
 	}
 
 	// remove file from memory; we will use disk from now on
